@@ -203,7 +203,7 @@ class BlockSeries:
                     data[index] = self.eval(*index)
                 except RuntimeError as error:
                     data.pop(index, None)
-                    if type(error) is not RuntimeError:
+                    if type(error) not in (RuntimeError, RecursionError):
                         raise  # An exception of the user's code keeps its type.
                     # Catch recursion errors with an informative message
                     raise RuntimeError(f"Failed to evaluate {self}[{index}]") from error
